@@ -205,10 +205,15 @@ def quiescent_callers(prog, res):
         if "providedFactory" in {x["f"] for x in walk(c) if x.get("k") == "mem"}:
             skip.append((bid, fl) if c.get("k") == "un" and c["op"] == "!" else (bid, t))
     tg = g.call_roots(("ZSTDMT_releaseAllJobResources", "ZSTDMT_freeJobsTable", "ZSTDMT_serialState_free"))
-    res.check(bool(pf) and bool(tg) and g.must_pass(via_roots=pf, via_edges=skip, targets=tg),
+    # (an earlier version excused the provided-pool edge "because the caller owns the pool": that excuse hid a genuine
+    #  use-after-free — a shared pool's workers outlive the context and may still run its jobs; repaired in aeba94a)
+    wt = g.call_roots("ZSTDMT_waitForAllJobsCompleted")
+    res.check(bool(pf) and bool(tg) and g.must_pass(via_roots=pf + wt, targets=tg),
               "T3.quiescent-before-reset", "ZSTDMT_freeCCtx", g.loc,
-              "POOL_free (joins the workers) precedes every release unless the pool is caller-provided",
-              "job/serial resources released before the workers are joined")
+              "every release is preceded by POOL_free (joins the workers) or, with a caller-provided pool, by ZSTDMT_waitForAllJobsCompleted",
+              "ZSTDMT_freeCCtx releases job/serial resources on a path that neither joined the workers nor waited for this context's jobs "
+              "(with ZSTD_CCtx_refThreadPool the shared workers may still be running them: use-after-free)")
+    res.check(len(skip) >= 1, "T3.quiescent-before-reset", "ZSTDMT_freeCCtx:provided-pool-kept", g.loc, "a caller-provided pool is not freed", "providedFactory no longer tested")
 
 
 def lock_order(la, res):
